@@ -77,6 +77,13 @@ FLaw(c, x, i, s, chem) ==
                               RDiv(RMul(RMul(x[i][s], dd), e.sfc), RMul(e.dst, Vol(c, i))))],
                    Len(c.nbr[i])))
 
+(* gross magnitude of the terms of F (for rounding tolerances on the implementation side) *)
+FGross(c, x, i, s) ==
+  RAdd(RSumTo([r \in ReacsOf(c) |-> RAbs(RMul(R(c.sto[r][s]), MassAction(c, x, i, r)))], c.nR),
+       RSumTo([n \in 1..Len(c.nbr[i]) |->
+                 RAdd(RAbs(RMul(x[c.nbr[i][n].j][s], KdIn(c, i, s, n))), RAbs(RMul(x[i][s], KdOut(c, i, s, n))))],
+              Len(c.nbr[i])))
+
 (* ---- conservation laws ---------------------------------------------------------*)
 ChemostatedSomewhere(c, s) == \E i \in CellsOf(c) : c.chs[i][s]
 LawRange == -2..2
